@@ -1103,6 +1103,12 @@ class Reaction(Object):
         Reaction
             Returns the same reaction modified in place.
         """
+        if coefficient == 0:
+            # nothing is left of the reaction: no zero entries, no back
+            # references (and an undo that does not divide by zero)
+            self.subtract_metabolites(dict(self._metabolites), combine=True)
+            return self
+
         self._metabolites = {
             met: value * coefficient for met, value in self._metabolites.items()
         }
